@@ -3,7 +3,9 @@ package sx
 // sync.Map as an ordered map kept on the interpreter; net/http client as a havoc stub.
 
 import (
+	"go/token"
 	"go/types"
+	"strings"
 
 	"golang.org/x/tools/go/ssa"
 )
@@ -111,7 +113,59 @@ func init() {
 func init() {
 	// encoding/json.Marshal(Indent): reflection-heavy; output formatting is never the subject of a
 	// property here. An opaque document is returned.
+	isStringMap := func(t types.Type) bool {
+		m, ok := t.Underlying().(*types.Map)
+		if !ok {
+			return false
+		}
+		k, ok1 := m.Key().Underlying().(*types.Basic)
+		e, ok2 := m.Elem().Underlying().(*types.Basic)
+		return ok1 && ok2 && k.Kind() == types.String && e.Kind() == types.String
+	}
+	rtFunc := func(fr *frame, name string) *ssa.Function {
+		return fr.i.prog.ImportedPackage(strings.TrimSuffix(rtPkg, ".")).Func(name)
+	}
+	jsonErr := func(fr *frame, msg string) value {
+		errorsPkg := fr.i.prog.ImportedPackage("errors")
+		cell := value(structure{msg})
+		return iface{t: types.NewPointer(errorsPkg.Type("errorString").Type()), v: &cell}
+	}
+	symExternals[rtPkg+"JSONModel"] = func(fr *frame, args []value) value {
+		X.JSONModel = true
+		return nil
+	}
+	// json.Unmarshal into *map[string]string: the validated model codec of verifrt (interpreted, so the document may be symbolic)
+	symExternals["encoding/json.Unmarshal"] = func(fr *frame, args []value) value {
+		it, _ := args[1].(iface)
+		pt, ok := it.t.(*types.Pointer)
+		if !X.JSONModel || !ok || !isStringMap(pt.Elem()) {
+			panic(abortPath{"encoding/json.Unmarshal outside the modelled shape (*map[string]string with vrt.JSONModel)"})
+		}
+		X.StubHits["encoding/json.Unmarshal -> verifrt.JSONModelUnmarshalStringMap"]++
+		r := call(fr.i, fr, token.NoPos, rtFunc(fr, "JSONModelUnmarshalStringMap"), []value{args[0]}).(tuple)
+		okv := r[1]
+		good := false
+		switch b := okv.(type) {
+		case bool:
+			good = b
+		case symv:
+			good = X.decide(b.t)
+		}
+		if !good {
+			return jsonErr(fr, "json: cannot decode (model)")
+		}
+		// json leaves the destination alone for "null"; otherwise it stores the decoded map
+		if m, isMap := r[0].(*omap); isMap && m != nil {
+			*it.v.(*value) = r[0]
+		}
+		return iface{}
+	}
 	marshal := func(fr *frame, args []value) value {
+		if it, ok := args[0].(iface); ok && X.JSONModel && it.t != nil && isStringMap(it.t) {
+			X.StubHits["encoding/json.Marshal -> verifrt.JSONModelMarshalStringMap"]++
+			out := call(fr.i, fr, token.NoPos, rtFunc(fr, "JSONModelMarshalStringMap"), []value{it.v})
+			return tuple{out, iface{}}
+		}
 		X.Events = append(X.Events, "json.Marshal")
 		doc := []value{uint8('{'), uint8('"'), uint8('o'), uint8('p'), uint8('a'), uint8('q'), uint8('u'), uint8('e'), uint8('"'), uint8(':'), uint8('1'), uint8('}')}
 		return tuple{doc, iface{}}
